@@ -164,6 +164,7 @@ def main():
                 kf = [k for k in known if k['match'].get('description_contains', '') in d]
                 if kf:
                     known_printed.append((kf[0], ce))
+                    obligations -= 1      # a known finding is reported, not counted among the obligations claimed as proved
                 else:
                     vio.append((d, ce))
             else:
